@@ -330,6 +330,29 @@ func (x *e2eRun) packOne() {
 
 // pack produces k blocks and then every block whose timer tasks are due, so that a timer
 // transaction never shares a block with pool transactions (see the open C13 finding).
+// refreshPool: a walk to the state's own block rolls every pending transaction back and
+// re-admits it (what a node does when a peer block arrives, and after own blocks that change
+// access-control rules). Pending token operations of one account chain on the same keys; undoing
+// and re-applying them must leave the token ledger exactly as it was.
+func (x *e2eRun) refreshPool() {
+	n := x.prod.n
+	before, err := readBucket(n, "governToken")
+	if err != nil {
+		return
+	}
+	if err := n.Walk(n.StateTip(), false); err != nil {
+		x.violation("govtoken|e2e|pool-refresh-failed", err.Error(), nil)
+		return
+	}
+	after, _ := readBucket(n, "governToken")
+	x.st.count("e2e.pool-refreshes", 1)
+	x.lg.lines = append(x.lg.lines, fmt.Sprintf("%d: pool refresh (walk to the state's own block, %d pending)", len(x.lg.lines), x.pool))
+	x.lg.shape = append(x.lg.shape, "refresh")
+	if d := bucketsEqual(before, after); len(d) > 0 {
+		x.violation("govtoken|e2e|pool-refresh-changes-token-ledger", fmt.Sprintf("rolling the %d pending transactions back and re-admitting them (walk to the state's own block) changed the token ledger: %s", x.pool, strings.Join(d, "; ")), nil)
+	}
+}
+
 func (x *e2eRun) pack(k int) {
 	for i := 0; i < k && !x.bad; i++ {
 		x.packOne()
@@ -408,6 +431,9 @@ func runE2E(r *ev.Run, idx int, minOps, maxOps int) {
 		x.submit(o)
 		if hadHeld && x.held != nil && !x.bad {
 			x.submitHeld()
+		}
+		if x.pool >= 2 && !x.bad && rng.Intn(6) == 0 {
+			x.refreshPool()
 		}
 		if x.pool >= limit {
 			x.pack(1)
